@@ -25,6 +25,7 @@ import NemoVerif.Lemmas.SlideGraphComplete
 import NemoVerif.Lemmas.ErrFrameAdvVM
 import NemoVerif.Lemmas.ErrFrameCorVM
 import NemoVerif.Lemmas.ErrLeafVM
+import NemoVerif.Lemmas.ErrRestartVM
 import NemoVerif.Lemmas.SlideStepVM
 
 namespace NemoVerif.C10
@@ -530,6 +531,28 @@ theorem vm_leaf_error_never_propagates (fuel : Nat) (k : Key) (s s1 s2 : VM) (i 
   exact errHandler_leaf_no_py fuel k rfl c m starting s2 hleaf
 
 
+/-- **restart guard on CoreVM** (`vm_restart_guard`; the CoreVM counterpart of `restart_guard_fail_repaired`, guard 0a36b0f of the
+    code): the hypotheses of `vm_except_branch` with the flow still STARTING (`starting = true`), the faulty instance activated.
+    Then `_advance_head_front` — whatever the instance's children and actions, whatever the outcome — adds NO `StartFlow` event to
+    the queue: an activated flow that fails before it was started is not restarted in the same round (no restart loop). -/
+theorem vm_restart_guard (fuel : Nat) (k : Key) (s s1 s2 : VM) (i : Inst) (hd hd2 : Head) (cfg : FlowCfg) (c m : String) (x : InstX)
+    (hi : findInst s.ixs.ix k.1 = some i) (hl : i.status.listening = true)
+    (hcfg : cfgOfInst k.1 s = .ok cfg s)
+    (hhd : i.findHead k.2 = some hd) (hact : hd.status = .active)
+    (hpre : (do
+        setHeadPos k (hd.pos + 1)
+        if (← getInst k.1).status = FlowStatus.waiting then setFlowStatus k.1 FlowStatus.starting
+        pure (decide ((← getInst k.1).status = FlowStatus.starting))) s = .ok true s1)
+    (hraise : (do
+        let newHeads ← slide (fuel + 1) k.1 k.2
+        if newHeads.isEmpty then pure [] else advanceHeadFront (fuel + 1) newHeads) s1 = .error (.py c m) s2)
+    (hhd2 : (findInst s2.ixs.ix k.1).bind (·.findHead k.2) = some hd2) (hpos : hd2.pos < cfg.elements.size)
+    (hx : OMap.lookup k.1 s2.r.fx = some x) (hactv : x.activated > 0) :
+    startCount (outState (advanceHeadFront (fuel + 2) [k] s)) ≤ startCount s2 := by
+  rw [advance_error_path (fuel + 1) k s s1 s2 i hd hd2 cfg c m true hi hl hcfg hhd hact hpre hraise hhd2 hpos]
+  exact errHandler_restart_guard fuel k c m s2 x hx hactv
+
+
 /-! ### frame: a family `G` of instances closed under child / scope flows, owning its contexts -/
 
 /-- `_abort_flow` on a member of `G` — any `deactivate_flow`, any outcome — leaves every instance outside `G` untouched: same
@@ -854,4 +877,23 @@ example : Closed (· = "f") demoVM3 := by
 /-- non-vacuity of `vm_try_catches` and `vm_slide_returns_own_heads` -/
 example : attemptPy (pyRaise "E" "m" : M Unit) demoVM = .ok (.error ("E", "m")) demoVM := vm_try_catches _ _ _ _ _ rfl
 example : ∃ r s', slide 3 "f" "h" demoVM2A = .ok r s' := ⟨_, _, rfl⟩
+
+/-- witness: the same flow, ACTIVATED (`@active`), instance still WAITING (so the advance makes it STARTING) -/
+def demoVM4 : VM :=
+  { demoVM with r := { demoVM.r with fx := [("f", { flowId := "f", loopId := none, hierPos := "0", activated := 1 })] } }
+
+/-- non-vacuity of `vm_restart_guard` … -/
+example : ∃ (s1 s2 : VM) (c m : String) (x : InstX),
+    (do
+        setHeadPos ("f", "h") 1
+        if (← getInst "f").status = FlowStatus.waiting then setFlowStatus "f" FlowStatus.starting
+        pure (decide ((← getInst "f").status = FlowStatus.starting))) demoVM4 = .ok true s1 ∧
+    (do
+        let newHeads ← slide 3 "f" "h"
+        if newHeads.isEmpty then pure [] else advanceHeadFront 3 newHeads) s1 = .error (.py c m) s2 ∧
+    OMap.lookup "f" s2.r.fx = some x ∧ x.activated > 0 :=
+  ⟨_, _, _, _, _, rfl, rfl, rfl, by decide⟩
+/-- … and the computed run: the activated flow fails (STOPPED), two events are queued (ColangError, FlowFailed), no StartFlow -/
+example : ∃ s', advanceHeadFront 4 [("f", "h")] demoVM4 = .ok [] s' ∧ startCount s' = 0 ∧ s'.r.queue.length = 2 ∧
+    (findInst s'.ixs.ix "f").map (·.status) = some .stopped := ⟨_, rfl, rfl, rfl, rfl⟩
 end NemoVerif.C10.VM
